@@ -17,6 +17,11 @@ def main():
     tier = a.tier if a.tier in ("quick", "thorough") else "quick"
     from vlib import common
     common.use_repo()
+    # every temporary file of this run (and of its subprocesses) lives in one directory that is removed at exit
+    import shutil, tempfile
+    run_tmp = tempfile.mkdtemp(prefix=f"verif-{a.pid}-")
+    os.environ["TMPDIR"] = run_tmp
+    tempfile.tempdir = run_tmp
     mod = importlib.import_module(f"props.{a.pid.lower()}")
     try:
         with common.RepoLock(a.pid):
@@ -30,6 +35,8 @@ def main():
     except Exception:
         traceback.print_exc()
         rc = 2
+    finally:
+        shutil.rmtree(run_tmp, ignore_errors=True)
     sys.exit(rc)
 
 
